@@ -121,7 +121,8 @@ def run(chk):
                        'E-MIR eval_node': 'patterns and near-misses in the contexts listed in DESIGN.md C12; n=2, k<=2, c in {0,1}; library attractor search by contract stub (terminal SCC states of each colour within the given vertex set)',
                        'E-UNI': 'the same formulas with the real ITGR + Xie-Beerel search on instances U2, C2, M2 (thorough: S3)'})
     chk.assumptions.append('E-MIR: compute_attractor_states is replaced by its contract (the real search is exercised by E-UNI)')
-    recognisers(chk)
+    from ..run import guard
+    guard(chk, 'C12/E-MIR pattern recognisers', recognisers, chk)
     fs = contexts()
     tasks = []
     for i, f in enumerate(fs):
